@@ -6994,7 +6994,13 @@ class Device(utils.CompositeEventEmitter):
     @with_connection_from_handle
     def on_gatt_pdu(self, connection: Connection, pdu: bytes):
         # Parse the L2CAP payload into an ATT PDU object
-        att_pdu = att.ATT_PDU.from_bytes(pdu)
+        try:
+            att_pdu = att.ATT_PDU.from_bytes(pdu)
+        except Exception as error:
+            # Let the server answer if this was meant to be a request
+            if connection.gatt_server is not None:
+                connection.gatt_server.on_invalid_gatt_pdu(connection, pdu, error)
+            return
 
         # Responses, notifications and indications are for the client, everything
         # else (requests, commands and confirmations, known or not) for the server
